@@ -63,11 +63,12 @@ class Interpreter:
             result.instructions = MichelineSequence([instructions])
             result.stack = self.stack
         except (MichelsonParserError, MichelsonRuntimeError) as e:
-            if self.context.debug:
-                raise
-
+            debug = self.context.debug
             self.stack = stack_backup
             self.context = context_backup
+            if debug:
+                raise
+
             result.stdout.append(e.format_stdout())
             result.error = e
 
